@@ -203,7 +203,7 @@ def parse (ts : List Tok) : Option PStmt :=
     if isWord a [67, 82, 69, 65, 84, 69] && isWord b [84, 65, 66, 76, 69] then
       match rest.getLast? with
       | some (.punct 41) =>
-        let defs := splitTop rest.dropLast
+        let defs := if rest.dropLast.isEmpty then [] else splitTop rest.dropLast
         let cols := defs.filterMap (fun d => match d with
           | .qident c :: ty => some (c, ty)
           | _ => none)
